@@ -11,7 +11,7 @@ rsync -a --exclude .git /repo/ "$S/repo/"
 if ! (cd "$S/repo" && patch -p1 --no-backup-if-mismatch -s < "$PATCH"); then echo "MUTANT: patch does not apply"; exit 3; fi
 rc=0
 for P in ${PROPS//,/ }; do
-  VERIF_REPO="$S/repo" VERIF_EVIDENCE_DIR="$S/ev" VERIF_REPLAY_DIR="$S/replays" VERIF_MAX_GROUPS=${VERIF_MAX_GROUPS:-2} /verif/bin/simcheck run --prop "$P" --tier "$TIER" > "$S/out.$P" 2>&1
+  VERIF_REPO="$S/repo" VERIF_EVIDENCE_DIR="$S/ev" VERIF_REPLAY_DIR="$S/replays" VERIF_MAX_GROUPS=${VERIF_MAX_GROUPS:-2} VERIF_MIN_BUDGET=${VERIF_MIN_BUDGET:-0} /verif/bin/simcheck run --prop "$P" --tier "$TIER" > "$S/out.$P" 2>&1
   r=$?
   echo "== $P exit=$r: $(grep -c '^VIOLATION' "$S/out.$P") violation groups"
   grep -A3 '^VIOLATION' "$S/out.$P" | cut -c1-600 | head -${MUTANT_LINES:-12}
